@@ -19,6 +19,8 @@ TRIGGERS = {
     "inplace_false_multiline": lambda m: bool(m.get("multiline")) and not m.get("inplace"),
     "backtick_whole_path": lambda m: bool(m.get("backtick_whole_path")),
     "separate_bases": lambda m: bool(m.get("separate_bases")),
+    "seq_as_scalar": lambda m: bool(m.get("seq_as_scalar")),
+    "neg_step_slice": lambda m: bool(m.get("neg_step")),
 }
 
 # failure modes over the flags [A model=impl, B spec=impl, C monitors, S selfcheck] + meta
@@ -27,6 +29,7 @@ MODES = {
     "impl_raises": lambda fl, m: (not fl[1]) and m.get("impl_raised") is True,
     "impl_wrong_value": lambda fl, m: (not fl[1]) and m.get("impl_raised") is False,
     "monitor": lambda fl, m: (not fl[2]),
+    "any": lambda fl, m: (not fl[1]) or (not fl[2]),
 }
 
 
